@@ -350,5 +350,5 @@ def replay(rp):
         return None
     policy = "-storage" if "-storage" in op["argv"] else "-partition" if "-partition" in op["argv"] else "none"
     summ = {"evals": 0, "keys": [], "probes": {}}
-    v = check_records(op, res, policy, summ, "replay")
+    v = check_records(op, res, policy, summ, "greedy" if "-greedy" in op["argv"] else "replay")
     return v[0] if v else None
